@@ -107,6 +107,27 @@ func unwrap(v interface{}) interface{} {
 // PrepareQuery checks that the given selectionSet matches the schema typ, and
 // parses the args in selectionSet
 func PrepareQuery(ctx context.Context, typ Type, selectionSet *SelectionSet) error {
+	return prepareQuery(ctx, typ, selectionSet, make(map[prepareQueryKey]struct{}))
+}
+
+// prepareQueryKey identifies a selection set checked against a type. A fragment
+// that is spread several times shares its selection set between the spreads, so
+// without remembering what has been checked the work doubles with every level of
+// nested fragments.
+type prepareQueryKey struct {
+	typ          Type
+	selectionSet *SelectionSet
+}
+
+func prepareQuery(ctx context.Context, typ Type, selectionSet *SelectionSet, checked map[prepareQueryKey]struct{}) error {
+	if selectionSet != nil {
+		key := prepareQueryKey{typ: typ, selectionSet: selectionSet}
+		if _, ok := checked[key]; ok {
+			return nil
+		}
+		checked[key] = struct{}{}
+	}
+
 	switch typ := typ.(type) {
 	case *Scalar:
 		if selectionSet != nil {
@@ -126,7 +147,7 @@ func PrepareQuery(ctx context.Context, typ Type, selectionSet *SelectionSet) err
 		for _, fragment := range selectionSet.Fragments {
 			if fragment.On == typ.Name {
 				// A fragment on the union itself applies to every member.
-				if err := PrepareQuery(ctx, typ, fragment.SelectionSet); err != nil {
+				if err := prepareQuery(ctx, typ, fragment.SelectionSet, checked); err != nil {
 					return err
 				}
 				continue
@@ -135,7 +156,7 @@ func PrepareQuery(ctx context.Context, typ Type, selectionSet *SelectionSet) err
 				if fragment.On != typString {
 					continue
 				}
-				if err := PrepareQuery(ctx, graphqlTyp, fragment.SelectionSet); err != nil {
+				if err := prepareQuery(ctx, graphqlTyp, fragment.SelectionSet, checked); err != nil {
 					return err
 				}
 			}
@@ -185,22 +206,22 @@ func PrepareQuery(ctx context.Context, typ Type, selectionSet *SelectionSet) err
 
 			selection.ParentType = typ.Name
 
-			if err := PrepareQuery(ctx, field.Type, selection.SelectionSet); err != nil {
+			if err := prepareQuery(ctx, field.Type, selection.SelectionSet, checked); err != nil {
 				return err
 			}
 		}
 		for _, fragment := range selectionSet.Fragments {
-			if err := PrepareQuery(ctx, typ, fragment.SelectionSet); err != nil {
+			if err := prepareQuery(ctx, typ, fragment.SelectionSet, checked); err != nil {
 				return err
 			}
 		}
 		return nil
 
 	case *List:
-		return PrepareQuery(ctx, typ.Type, selectionSet)
+		return prepareQuery(ctx, typ.Type, selectionSet, checked)
 
 	case *NonNull:
-		return PrepareQuery(ctx, typ.Type, selectionSet)
+		return prepareQuery(ctx, typ.Type, selectionSet, checked)
 
 	default:
 		panic("unknown type kind")
